@@ -43,37 +43,46 @@ def mix(*parts):
     return int.from_bytes(h, "big")
 
 
-def make_decider(rng):
-    """Swarm: one search strategy per run, drawn from the run's PRNG."""
+def pick_strategy(rng):
+    """Swarm: one search strategy per run index, drawn from the run's PRNG."""
     k = rng.random()
-    if k < 0.45:
-        ps = rng.choice([0.2, 0.5, 0.8])
-        pl = rng.choice([0.3, 0.1, 0.03, 0.01])
-        return core.RandomWalk(rng, ps, pl), ["walk", ps, pl]
-    if k < 0.6:
-        ps = rng.choice([0.2, 0.5, 0.8])
-        return core.RandomWalk(rng, ps, 0.0), ["walk-sync", ps, 0.0]
-    if k < 0.68:
-        return core.RandomWalk(rng, 0.0, 0.0), ["run-to-block", 0.0, 0.0]
-    d = rng.randint(1, 4)
-    est = rng.choice([150, 400, 1000, 3000])
-    return core.PCT(rng, d, est), ["pct", d, est]
+    if k < 0.40:
+        return ["walk", rng.choice([0.2, 0.5, 0.8]), rng.choice([0.3, 0.1, 0.03, 0.01])]
+    if k < 0.52:
+        return ["walk", rng.choice([0.2, 0.5, 0.8]), 0.0]
+    if k < 0.58:
+        return ["walk", 0.0, 0.0]
+    return ["pct", rng.choice([1, 1, 1, 2, 2, 3]), rng.getrandbits(48)]
 
 
-def decider_from_desc(desc, rng):
-    if desc[0] == "pct":
-        return core.PCT(rng, desc[1], desc[2])
-    return core.RandomWalk(rng, desc[1], desc[2])
+def schedules(scn, program, rng):
+    """
+    Yields (desc, sched, violations, stats) for the one or two executions of
+    one run index.  A PCT strategy first runs without change points (which is
+    itself a schedule: strict priorities) to measure the number of steps, then
+    places its change points uniformly inside that length.
+    """
+    desc = pick_strategy(rng)
+    if desc[0] == "walk":
+        s, viol, stats = scn.run(program, core.RandomWalk(rng, desc[1], desc[2]))
+        yield desc, s, viol, stats
+        return
+    _, d, prio_seed = desc
+    s, viol, stats = scn.run(program, core.PCT(prio_seed, []))
+    yield ["pct", 0, prio_seed, []], s, viol, stats
+    n = max(2, s.step)
+    points = sorted(rng.randrange(n) for _ in range(d))
+    s, viol, stats = scn.run(program, core.PCT(prio_seed, points))
+    yield ["pct", d, prio_seed, points], s, viol, stats
 
 
 def one_run(scn, check_id, seed, index):
+    """All executions of one run index: [(program, desc, sched, violations, stats), ...]."""
     rs = mix(seed, check_id, index)
     grng = random.Random(rs)
     program = scn.generate(grng)
     drng = random.Random(rs ^ 0x9E3779B97F4A7C15)
-    decider, desc = make_decider(drng)
-    s, viol, stats = scn.run(program, decider)
-    return program, desc, s, viol, stats
+    return [(program,) + r for r in schedules(scn, program, drng)]
 
 
 # ---------------------------------------------------------------------------
@@ -98,50 +107,56 @@ def _worker(args):
         if time.time() > t_end:
             break
         try:
-            program, desc, s, viol, stats = one_run(scn, check_id, seed, i)
+            execs = one_run(scn, check_id, seed, i)
         except core.HarnessError as ex:
             agg["harness_errors"].append("run %d: %s" % (i, ex))
             if len(agg["harness_errors"]) > 3:
                 break
             i += nworkers
             continue
-        agg["runs"] += 1
-        agg["steps"] += stats["steps"]
-        agg["switches"] += stats["switches"]
-        agg["simtime"] += stats["simtime"]
-        dg = s.digest()
-        agg["digests"].add(dg)
-        ph = hashlib.blake2b(json.dumps(program, sort_keys=True).encode(), digest_size=8).hexdigest()
-        agg["programs"].add(ph)
-        if stats.get("nontrivial"):
-            agg["nontrivial"] += 1
-            agg["nt_digests"].add(dg)
-        agg["states"].update(stats.get("states") or ())
-        for k, n in (stats.get("faults") or {}).items():
-            agg["faults"][k] = agg["faults"].get(k, 0) + n
-        for k, n in (stats.get("probes") or {}).items():
-            agg["probes"][k] = agg["probes"].get(k, 0) + (1 if n else 0)
-        vk = stats.get("verdict") or "completed"
-        agg["verdicts"][vk] = agg["verdicts"].get(vk, 0) + 1
-        agg["strategies"][desc[0]] = agg["strategies"].get(desc[0], 0) + 1
-        if len(agg["samples"]) < 2 and stats.get("nontrivial"):
-            agg["samples"].append({"run_index": i, "program": program, "strategy": desc,
-                                   "steps": stats["steps"], "context_switches": stats["switches"],
-                                   "schedule_digest": dg,
-                                   "history_head": [list(map(_plain, e)) for e in s.log[:12]]})
-        for v in viol:
-            if v.prop not in props:
-                agg["other_props"][v.cls] = agg["other_props"].get(v.cls, 0) + 1
-                continue
-            c = v.cls
-            if c in known:
-                agg["known_hits"][c] = agg["known_hits"].get(c, 0) + 1
-                continue
-            if c not in agg["failures"] and len(agg["failures"]) < 4:
-                agg["failures"][c] = {"index": i, "program": program, "trace": sorted(s.trace.items()),
-                                      "msg": v.msg, "digest": dg, "strategy": desc}
+        for program, desc, s, viol, stats in execs:
+            _account(agg, i, program, desc, s, viol, stats, props, known)
         i += nworkers
     return agg
+
+
+def _account(agg, i, program, desc, s, viol, stats, props, known):
+    agg["runs"] += 1
+    agg["steps"] += stats["steps"]
+    agg["switches"] += stats["switches"]
+    agg["simtime"] += stats["simtime"]
+    dg = s.digest()
+    agg["digests"].add(dg)
+    ph = hashlib.blake2b(json.dumps(program, sort_keys=True).encode(), digest_size=8).hexdigest()
+    agg["programs"].add(ph)
+    if stats.get("nontrivial"):
+        agg["nontrivial"] += 1
+        agg["nt_digests"].add(dg)
+    agg["states"].update(stats.get("states") or ())
+    for k, n in (stats.get("faults") or {}).items():
+        agg["faults"][k] = agg["faults"].get(k, 0) + n
+    for k, n in (stats.get("probes") or {}).items():
+        agg["probes"][k] = agg["probes"].get(k, 0) + (1 if n else 0)
+    vk = stats.get("verdict") or "completed"
+    agg["verdicts"][vk] = agg["verdicts"].get(vk, 0) + 1
+    sk = "%s-%s" % (desc[0], desc[1]) if desc[0] == "pct" else ("walk" if desc[2] else ("walk-sync" if desc[1] else "run-to-block"))
+    agg["strategies"][sk] = agg["strategies"].get(sk, 0) + 1
+    if len(agg["samples"]) < 2 and stats.get("nontrivial"):
+        agg["samples"].append({"run_index": i, "program": program, "strategy": desc,
+                               "steps": stats["steps"], "context_switches": stats["switches"],
+                               "schedule_digest": dg,
+                               "history_head": [list(map(_plain, e)) for e in s.log[:12]]})
+    for v in viol:
+        if v.prop not in props:
+            agg["other_props"][v.cls] = agg["other_props"].get(v.cls, 0) + 1
+            continue
+        c = v.cls
+        if c in known:
+            agg["known_hits"][c] = agg["known_hits"].get(c, 0) + 1
+            continue
+        if c not in agg["failures"] and len(agg["failures"]) < 4:
+            agg["failures"][c] = {"index": i, "program": program, "trace": sorted(s.trace.items()),
+                                  "msg": v.msg, "digest": dg, "strategy": desc}
 
 
 def _plain(x):
@@ -185,12 +200,15 @@ def shrink(scn, program, trace, cls, budget=2500, tries=40):
         for k in range(tries):
             if used[0] >= budget:
                 return None
-            used[0] += 1
             rng = random.Random(mix(cls, k, used[0]))
-            dec, _ = make_decider(rng)
-            r = _fails(scn, cand, dec, cls)
-            if r is not None:
-                return r
+            try:
+                for desc, s, viol, stats in schedules(scn, cand, rng):
+                    used[0] += 1
+                    for v in viol:
+                        if v.cls == cls:
+                            return s, v
+            except core.HarnessError:
+                pass
         return None
 
     improved = True
@@ -414,8 +432,9 @@ def run_check(scn_factory, scn_name, check_id, prop, tier, seed, budget_s, jobs,
         "property_id": prop, "tier": tier, "seed": seed, "level": level, "coverage": cov,
         "assumptions": assumptions, "wall_s": round(wall, 2), "violations": nviol,
     }
-    os.makedirs(os.path.join(HERE, "evidence"), exist_ok=True)
-    with open(os.path.join(HERE, "evidence", "%s.json" % prop), "w") as fh:
+    evdir = os.environ.get("VERIF_EVIDENCE_DIR") or os.path.join(HERE, "evidence")
+    os.makedirs(evdir, exist_ok=True)
+    with open(os.path.join(evdir, "%s.json" % prop), "w") as fh:
         json.dump(evidence, fh, indent=1, sort_keys=True, default=_plain)
         fh.write("\n")
     print("property=%s tier=%s seed=%d runs=%d distinct-schedules=%d nontrivial=%d states=%d steps=%d wall=%.1fs" % (
